@@ -210,7 +210,7 @@ func c04RunStrings(r *core.Run) {
 
 // token kinds used for replacement / insertion edits, by representative text
 var c04TokenTexts = []string{"a", `"q"`, "'r'", "`1`", "1", "-1", "$v", "$", "@", "&", ".", ",", ":", "(", ")", "{", "}", "[", "]", "[]", "[?", "*", "|", "||", "&&", "!", "==", "!=", "<", "<=", ">", ">=",
-	"+", "-", "−", "×", "/", "÷", "//", "%", "=", "let", "in", "abs", "[*]", ".*"}
+	"+", "-", "−", "×", "/", "÷", "//", "%", "=", "let", "in", "abs", "[*]", ".*", "08", "-09", "010", "00", "-0"}
 
 func c04ValidExpressions(thorough bool) []string {
 	seen := map[string]bool{}
@@ -238,7 +238,7 @@ func c04ValidExpressions(thorough bool) []string {
 	for _, e := range []string{"a.b.c", "a[0].b[1:2]", "a[*].b[?c == `1`].d", "{a: b, \"c\": d.e}", "[a, b.c, `1`]", "a | b | c", "a || b && !c", "a == b || c != d", "abs(a) + b * c - d / e",
 		"let $x = a, $y = b in [$x, $y]", "sort_by(a, &b)[0]", "map(&[@, $x], a)", "a.*.b", "*.a[*]", "a[?b > `1` && c][].d", "@.a", "$.a[0]", "a[::2]", "a[-1:]", "a.\"b c\"", "'x' == a", "not_null(a, b, c)",
 		"a < b", "a <= b", "a > b", "a >= b", "a − b", "a × b ÷ c", "a // b % c", "+a", "-a", "!a", "(a)", "(a.b)[0]", "a.[b, c]", "a.{k: b}", "a[?@]", "[?a]", "[*]", "[]", "*", "a[]", "a[*]", "a.*", "a[?b].c",
-		"join(', ', a)", "find_first(a, 'x', `0`, `2`)", "merge(a, b)", "to_string(@)", "a[*].b.*.c[]"} {
+		"a[08]", "a[010]", "a[-09:08:010]", "[00]", "a[:-0]", "a[0x1]", "a[1e1]", "a[+1]", "a[1.0]", "a[- 1]", "join(', ', a)", "find_first(a, 'x', `0`, `2`)", "merge(a, b)", "to_string(@)", "a[*].b.*.c[]"} {
 		add(e)
 	}
 	return out
